@@ -722,6 +722,9 @@ impl ExchangeCase {
 fn judge_exchange(ctx: &mut Ctx, ec: &ExchangeCase, timeout: Duration) {
     ctx.eval();
     ctx.count(&format!("exchange/{}", ec.bucket));
+    if let Some(e) = ec.spec.options.iter().find_map(|o| o.strip_prefix("exit=")) {
+        ctx.count(&format!("exchange_exit_status/{}", e));
+    }
     if ec.bucket.contains("pad>16MiB") {
         ctx.count("exchanges_with_reply_above_16MiB");
     }
@@ -801,7 +804,9 @@ fn size_bucket(b: usize) -> &'static str {
     }
 }
 
-pub const REPLY_FAULTS: [&str; 15] = [
+pub const REPLY_FAULTS: [&str; 17] = [
+    "non-utf8-garbage-line",
+    "non-utf8-byte-in-value-line",
     "truncated-model-after-minus",
     "truncated-model-at-byte",
     "zero-mid-model",
@@ -891,6 +896,12 @@ fn gen_exchange(ctx: &Ctx, rng: &mut Rng, idx: u64) -> ExchangeCase {
             opts.push(format!("vsplit={}", rng.pick(&[0usize, 1, 10])));
             bucket_parts.push(format!("malformed-reply/{}", f));
         }
+    }
+    // the exit status of the process: real solvers exit with 10 / 20 (and 0, 1, ... on trouble); what the
+    // status says never stands for a reply that is missing or broken, and never spoils one that is there
+    if rng.pct(45) {
+        let e = *rng.pick(&["conv", "conv", "20", "10", "1", "0", "255"]);
+        opts.push(format!("exit={}", e));
     }
     if big_model {
         bucket_parts.push("big-model".to_string());
@@ -1210,7 +1221,13 @@ fn c17_external<T: HLabel>(ctx: &mut Ctx, case: &StaticCase, built: &Built<T>, r
             for j in js {
                 ctx.eval();
                 reset(&state);
-                let faulty = Backend::External(msat_path(ctx), vec![st.clone(), format!("fault={}@{}", kind, j), format!("cut={}", rng.below(1000))]);
+                let mut fopts = vec![st.clone(), format!("fault={}@{}", kind, j), format!("cut={}", rng.below(1000))];
+                if rng.pct(50) {
+                    // the process exit status follows the competition convention (10 / 20) or is a fixed value
+                    fopts.push(format!("exit={}", rng.pick(&["conv", "20", "10", "1"])));
+                    ctx.count("injected/external/with-solver-like-exit-status");
+                }
+                let faulty = Backend::External(msat_path(ctx), fopts);
                 let r = ask_fresh(built, t.ty, enc, monitor::plain_factory(faulty), &q);
                 let reached: usize = std::fs::read_to_string(state.join("counter")).ok().and_then(|s| s.trim().parse().ok()).unwrap_or(0);
                 if reached < j {
@@ -1352,6 +1369,28 @@ fn c17_cli(ctx: &mut Ctx, case: &StaticCase, rng: &mut Rng, focus: Option<&Value
     for (a, b) in case.abs.att.iter() {
         text.push_str(&format!("{} {}\n", a + 1, b + 1));
     }
+    // one instance file in seven is large (1-3 MiB: the same framework between comment lines)
+    if focus.and_then(|f| f.get("large_instance_file")).and_then(|x| x.as_bool()).unwrap_or_else(|| rng.pct(14)) {
+        let target = (1usize << 20) + rng.below(2 << 20);
+        let mut big = String::with_capacity(target + text.len() + 128);
+        let mut lines = text.lines();
+        big.push_str(lines.next().unwrap_or(""));
+        big.push('\n');
+        let line = format!("# {}\n", "padding ".repeat(15));
+        while big.len() < target / 2 {
+            big.push_str(&line);
+        }
+        for l in lines {
+            big.push_str(l);
+            big.push('\n');
+        }
+        while big.len() < target {
+            big.push_str(&line);
+        }
+        text = big;
+        ctx.count("injected/cli/instance-file-above-1MiB");
+    }
+    let large_file = text.len() >= (1 << 20);
     if std::fs::write(&file, &text).is_err() {
         ctx.harness_error("cannot write instance file");
         return;
@@ -1380,6 +1419,15 @@ fn c17_cli(ctx: &mut Ctx, case: &StaticCase, rng: &mut Rng, focus: Option<&Value
         if let Some((k, j)) = &fault {
             cmd.args(["--external-sat-solver-opt", &format!("fault={}@{}", k, j)]);
             cmd.args(["--external-sat-solver-opt", &format!("cut={}", (j * 137 + k.len() * 61) % 1000)]);
+            match (j + k.len()) % 4 {
+                0 => {
+                    cmd.args(["--external-sat-solver-opt", "exit=conv"]);
+                }
+                1 => {
+                    cmd.args(["--external-sat-solver-opt", "exit=20"]);
+                }
+                _ => {}
+            }
         }
         let out = cmd.output().ok()?;
         let reached: usize = std::fs::read_to_string(state.join("counter")).ok().and_then(|s| s.trim().parse().ok()).unwrap_or(0);
@@ -1417,6 +1465,7 @@ fn c17_cli(ctx: &mut Ctx, case: &StaticCase, rng: &mut Rng, focus: Option<&Value
             ctx.violation(
                 &format!("C17/cli-answered-after-backend-failure/{}/{}", kind, prob),
                 json!({"problem": prob, "argument": arg, "binary": bin_name, "fault_kind": kind, "fault_at_call": j, "calls_without_fault": k,
+                       "large_instance_file": large_file,
                        "exit_status": o.status.code(), "stdout": stdout.chars().take(300).collect::<String>()}),
                 &json!({"sub": "cli", "case": case.to_json()}),
             );
